@@ -541,7 +541,7 @@ var shardTenants = []string{"tenant-1", "tenant-2", "special-tenant", "prefix-te
 func genC21(c *hlib.Ctx) {
 	r := c.R
 	ls := allLayouts(12, 3)
-	for i := 0; i < c.N(220, 4000) && !gaveUp(); i++ {
+	for i := 0; i < c.N(220, 1800) && !gaveUp(); i++ {
 		l := pickLayout(r, ls, 12)
 		for l.total() < 2 {
 			l = pickLayout(r, ls, 12)
@@ -620,7 +620,7 @@ func genC21(c *hlib.Ctx) {
 		c.Do(fmt.Sprintf("shard %s %d %d %s %d %s %s", zaTok, rf, capa, showEps(eps), dflt, showShardOvs(ovs), strings.Join(reqs, ";")), true)
 	}
 	// end to end with the production section count of the sub-ring: selection, sub-ring, GetN
-	for i := 0; i < c.N(12, 150) && !gaveUp(); i++ {
+	for i := 0; i < c.N(12, 80) && !gaveUp(); i++ {
 		l := pickLayout(r, allLayouts(6, 3), 6)
 		for l.total() < 2 {
 			l = pickLayout(r, allLayouts(6, 3), 6)
